@@ -562,9 +562,14 @@ def rule_attribution(ck: Check, repo: Repo) -> None:
     fn = repo.func(nq2)
     ck.analysed_fn(nq2)
     calls = find_calls(fn, lambda c, f: f == "toml.reuse_info_of")
+    from ..rules import deep_text as _deep
     got = expr_text(fn, calls[0].args[0]) if calls else "?"
+    try:
+        got_deep = _deep(fn, calls[0].args[0]) if calls else "?"   # through a local that names the joined path
+    except Exception:  # noqa: BLE001
+        got_deep = got
     r.instance(nq2, {"argument": got}, nq2)
-    if got != "(PurePath(self.source) / path).relative_to(toml.directory)":
+    if "(PurePath(self.source) / path).relative_to(toml.directory)" not in (got, got_deep):
         r.violation(nq2, "path is not made relative to the REUSE.toml's directory",
                     f"toml.reuse_info_of receives {got}", repo.loc(fn))
 
